@@ -410,14 +410,14 @@ fn gen_gm(g: &TermGen, r: &mut Rng, depth: usize, stats: &mut Stats) -> String {
 }
 
 fn gen_pat(g: &TermGen, r: &mut Rng, graph: bool, stats: &mut Stats, pool: &[Q]) -> String {
-    // half of the patterns are derived from an existing quad so that every index arm is hit with
-    // constants that exist; each position independently: exact constant / other matcher
+    // Most patterns are derived from an existing quad so that every index arm is hit with constants
+    // that exist and results are non-empty; per position: exact constant / Any / another matcher.
     let mut parts = vec![];
-    let q = if !pool.is_empty() && r.chance(2, 3) { Some(r.pick(pool).clone()) } else { None };
+    let q = if !pool.is_empty() && r.chance(4, 5) { Some(r.pick(pool).clone()) } else { None };
     let mut shape = String::new();
-    for (i, t) in ["s", "p", "o"].iter().enumerate() {
-        let _ = t;
-        if let (Some(q), true) = (&q, r.chance(1, 2)) {
+    for i in 0..3 {
+        let roll = r.below(10);
+        if let (Some(q), true) = (&q, roll < 4) {
             let term = [&q.s, &q.p, &q.o][i];
             shape.push('1');
             parts.push(match r.below(3) {
@@ -425,6 +425,10 @@ fn gen_pat(g: &TermGen, r: &mut Rng, graph: bool, stats: &mut Stats, pool: &[Q])
                 1 => format!("S 1 {}", term.render()),
                 _ => format!("R 1 {}", term.render()),
             });
+        } else if roll < 8 {
+            shape.push('0');
+            stats.bump("matcher.any");
+            parts.push("A".to_string());
         } else {
             let m = gen_tm(g, r, 1, stats);
             shape.push(if m.starts_with("O ") || m.starts_with("S 1 ") || m.starts_with("R 1 ") { '1' } else { '0' });
@@ -432,7 +436,8 @@ fn gen_pat(g: &TermGen, r: &mut Rng, graph: bool, stats: &mut Stats, pool: &[Q])
         }
     }
     if !graph {
-        if let (Some(q), true) = (&q, r.chance(1, 2)) {
+        let roll = r.below(10);
+        if let (Some(q), true) = (&q, roll < 4) {
             let gn = match &q.g {
                 None => "-".to_string(),
                 Some(t) => t.render(),
@@ -447,6 +452,10 @@ fn gen_pat(g: &TermGen, r: &mut Rng, graph: bool, stats: &mut Stats, pool: &[Q])
                     None => "GO -".into(),
                 },
             });
+        } else if roll < 8 {
+            shape.push('0');
+            stats.bump("matcher.gany");
+            parts.push("GA".to_string());
         } else {
             let m = gen_gm(g, r, 1, stats);
             shape.push(if m.starts_with("GO ") || m.starts_with("GS 1 ") || m.starts_with("GR 1 ") || m.starts_with("Gm O ") || m.starts_with("Gm S 1 ") || m.starts_with("Gm R 1 ") { '1' } else { '0' });
@@ -467,7 +476,7 @@ pub fn generate(ctx: &mut GenCtx) {
         ("HD", "0"), ("BD", "0"), ("VD", "0"),
     ];
     let histories = if ctx.thorough { 600 } else { 90 };
-    let maxlen = if ctx.thorough { 120 } else { 45 };
+    let maxlen = if ctx.thorough { 150 } else { 70 };
     for h in 0..histories {
         let (kind, width) = kinds[h % kinds.len()];
         let graph = kind.ends_with('G');
@@ -476,11 +485,23 @@ pub fn generate(ctx: &mut GenCtx) {
         ctx.stats.bump(&format!("store.{}{}", kind, width));
         let generalized = h % 3 != 0;
         let mut pool: Vec<Q> = vec![];
-        let n = ctx.rng.range(8, maxlen);
+        let n = ctx.rng.range(15, maxlen);
         for _ in 0..n {
             let mut q = if generalized { g.any_quad(&mut ctx.rng) } else { g.strict_quad(&mut ctx.rng) };
             if graph {
                 q.g = None;
+            }
+            // the same term in several positions of one quad (s = p, p = o, s = g …): per-position
+            // caches keyed by index must not be confused by equal indexes in different positions
+            if generalized && ctx.rng.chance(1, 4) {
+                match ctx.rng.below(if graph { 3 } else { 5 }) {
+                    0 => q.p = q.s.clone(),
+                    1 => q.o = q.p.clone(),
+                    2 => q.o = q.s.clone(),
+                    3 => q.g = Some(q.s.clone()),
+                    _ => q.g = Some(q.o.clone()),
+                }
+                ctx.stats.bump("same_term_two_positions");
             }
             // re-use known quads often (duplicates, removal of present quads)
             if !pool.is_empty() && ctx.rng.chance(2, 5) {
@@ -493,16 +514,17 @@ pub fn generate(ctx: &mut GenCtx) {
                     }
                 }
             }
-            let op = ctx.rng.below(if vec_like { 6 } else { 20 });
+            let op = ctx.rng.below(if vec_like { 16 } else { 40 });
             let line = match op {
-                0..=4 => {
+                0..=15 if vec_like && op >= 14 => "all".to_string(),
+                0..=13 => {
                     pool.push(q.clone());
                     format!("ins {}", q.render())
                 }
-                5 => "all".to_string(),
-                6..=7 => format!("rem {}", q.render()),
-                8 => format!("has {}", q.render()),
-                9 => {
+                14 => "all".to_string(),
+                15..=18 => format!("rem {}", q.render()),
+                19..=20 => format!("has {}", q.render()),
+                21..=23 => {
                     let k = ctx.rng.range(0, 4);
                     let mut v = vec![];
                     for _ in 0..k {
@@ -515,8 +537,8 @@ pub fn generate(ctx: &mut GenCtx) {
                     }
                     format!("insall {}", v.join(" | "))
                 }
-                10 => {
-                    let k = ctx.rng.range(0, 4);
+                24 => {
+                    let k = ctx.rng.range(0, 3);
                     let mut v = vec![];
                     for _ in 0..k {
                         let mut q2 = if ctx.rng.chance(3, 4) && !pool.is_empty() { ctx.rng.pick(&pool).clone() } else { g.strict_quad(&mut ctx.rng) };
@@ -527,10 +549,14 @@ pub fn generate(ctx: &mut GenCtx) {
                     }
                     format!("remall {}", v.join(" | "))
                 }
-                11..=15 => format!("qm {}", gen_pat(&g, &mut ctx.rng, graph, &mut ctx.stats, &pool)),
-                16 => format!("remm {}", gen_pat(&g, &mut ctx.rng, graph, &mut ctx.stats, &pool)),
-                17 => format!("retm {}", gen_pat(&g, &mut ctx.rng, graph, &mut ctx.stats, &pool)),
-                18 => format!("enum {}", ctx.rng.pick(&["subjects", "predicates", "objects", "graphs", "iris", "bnodes", "literals", "vars", "qtriples"])),
+                25..=35 => format!("qm {}", gen_pat(&g, &mut ctx.rng, graph, &mut ctx.stats, &pool)),
+                36 => format!("remm {}", gen_pat(&g, &mut ctx.rng, graph, &mut ctx.stats, &pool)),
+                // retain_matching with a negated narrow pattern keeps most of the store
+                37 => if ctx.rng.chance(1, 3) { format!("retm {}", gen_pat(&g, &mut ctx.rng, graph, &mut ctx.stats, &pool)) } else {
+                    let victim = if pool.is_empty() { g.iri(&mut ctx.rng) } else { ctx.rng.pick(&pool).o.clone() };
+                    format!("retm A A ! O {}{}", victim.render(), if graph { "" } else { " GA" })
+                },
+                38 => format!("enum {}", ctx.rng.pick(&["subjects", "predicates", "objects", "graphs", "iris", "bnodes", "literals", "vars", "qtriples"])),
                 _ => "len".to_string(),
             };
             let opname = line.split(' ').next().unwrap().to_string();
